@@ -115,7 +115,7 @@ Proof.
   destruct (nth_error (prods s) i) as [p|] eqn:Hn; [|discriminate].
   destruct (pp p) eqn:Hp.
   - (* PSet *)
-    assert (Hw : forall c, at_write (with_pp p c) = at_write p \/ True) by auto.
+    destruct (pk p); [discriminate|].
     destruct (stopped s); inversion H; subst; clear H;
       (constructor; simpl; auto;
        pose proof (count_w_set_nth i (with_pp p (PLoad (if registered s then 0 else 1))) p _ Hn) as C1;
@@ -332,7 +332,8 @@ Proof.
   intros [Hia Hf Hp Hs Hsl Hr Hnd Ho] H. unfold step_prod in H. unfold pend_ok in Hp.
   destruct (nth_error (prods s) i) as [p|] eqn:Hn; [|discriminate].
   destruct (pp p) eqn:Hpp.
-  - destruct (stopped s); inversion H; subst; clear H; constructor; unfold pend_ok; simpl; auto;
+  - destruct (pk p); [discriminate|].
+    destruct (stopped s); inversion H; subst; clear H; constructor; unfold pend_ok; simpl; auto;
       eapply own_set_prod; eauto; rewrite Hpp; simpl; lia.
   - destruct (Nat.ltb j (pn p)); inversion H; subst; clear H. constructor; unfold pend_ok; simpl; auto.
     eapply own_set_prod; eauto. rewrite Hpp; simpl; lia.
@@ -397,12 +398,8 @@ Proof.
   - destruct stp eqn:Es; simpl; repeat split; auto; try tauto; try discriminate;
       try (rewrite Hf, app_nil_r; now rewrite <- !app_assoc);
       try (intros [H|H]; discriminate); try (exists a; split; auto).
-  - repeat split; auto; try tauto; try (intros [H|H]; discriminate).
-    + rewrite Hf. now rewrite <- !app_assoc.
-    + eauto.
-    + apply Hstp.
-    + apply Hstp.
-    + exists a; split; auto.
+  - repeat split; auto; try tauto; try (intros [H|H]; discriminate);
+      try (rewrite Hf; now rewrite <- !app_assoc); try (exists a; split; now auto); try apply Hstp; eauto.
 Qed.
 
 Lemma step_loop_invQ s s' evs : InvQ s -> step_loop s = Some (s', evs) -> InvQ s'.
@@ -438,10 +435,7 @@ Proof.
     + simpl. rewrite Hf, Hp. now rewrite <- !app_assoc.
     + simpl. rewrite Hs, in_app_iff. simpl. split; [tauto|]. intros [X|[X|[]]]; auto. discriminate.
     + auto.
-    + constructor; auto.
-      * rewrite E3, E2. exact Hia.
-      * rewrite E1. exact Hnd.
-      * rewrite E1, E4. exact Ho.
+    + constructor; auto; rewrite ?E1, ?E2, ?E3, ?E4; simpl; auto; try discriminate.
   - (* LMarkLoad *)
     inversion H; subst; clear H; constructor; unfold pend_ok; simpl; auto.
     + destruct (stack s); auto.
@@ -450,7 +444,7 @@ Proof.
   - (* LMarkCas *)
     destruct (stack s) eqn:Hst; inversion H; subst; clear H; constructor; unfold pend_ok; simpl; auto;
       try (intros [E|E]; discriminate); try (intros E; destruct (Hns E) as [X|[X|X]]; discriminate).
-    rewrite Hf, Hst. reflexivity.
+    all: rewrite ?Hst; auto.
   - (* LXchg *)
     inversion H; subst; clear H.
     match goal with |- InvQ (continue_batch ?x ?y) =>
@@ -458,10 +452,7 @@ Proof.
     + simpl. rewrite Hf, Hp. simpl. now rewrite app_nil_r.
     + simpl. exact Hs.
     + auto.
-    + constructor; auto.
-      * rewrite E3. simpl. discriminate.
-      * rewrite E1. exact Hnd.
-      * rewrite E1, E4. exact Ho.
+    + constructor; auto; rewrite ?E1, ?E2, ?E3, ?E4; simpl; auto; try discriminate.
   - (* LWait *)
     destruct (Nat.ltb 0 (efd s)); [|discriminate].
     inversion H; subst; clear H; constructor; unfold pend_ok; simpl; auto;
@@ -481,4 +472,231 @@ Theorem invQ_reachable counts nstop pre (sched : list nat) :
 Proof.
   apply (run_invariant_state _ _ _ step InvQ); [|apply invQ_init].
   intros; eapply step_invQ; eauto.
+Qed.
+
+
+(* ---- invariant 3: the stop request ----------------------------------------------------------------- *)
+Definition in_pre (l : lpc) : Prop := l = LPreLoad \/ (exists o, l = LPreCas o) \/ l = LPreWrite.
+Definition stop_owed_by (p : prod) : Prop :=
+  pk p = KStopper /\ (pp p = PLoad 0 \/ exists o, pp p = PCas 0 o).
+Definition owed_loop (l : lpc) : Prop := l = LReg \/ l = LPreLoad \/ exists o, l = LPreCas o.
+
+Record InvS (s : st) : Prop := {
+  s_stopped : In IStop (enq s) -> stopped s = true;
+  s_reg : registered s = false -> stopped s = false -> loop s = LReg;
+  s_stopper : forall i p, nth_error (prods s) i = Some p -> pk p = KStopper -> pn p = 1;
+  s_kst : forall i p, nth_error (prods s) i = Some p -> pk p = KStopper -> pp p = PSet \/ stopped s = true;
+  s_pre : in_pre (loop s) -> stopped s = true;
+  s_owed : stopped s = true ->
+           In IStop (enq s) \/ owed_loop (loop s) \/
+           exists i p, nth_error (prods s) i = Some p /\ stop_owed_by p
+}.
+
+Lemma invS_init counts nstop pre : InvS (init counts nstop pre).
+Proof.
+  constructor; simpl; auto; try tauto.
+  - intros i p H Hk. pose proof (nth_error_In _ _ H) as H'. apply in_app_or in H'. destruct H' as [H'|H'].
+    + apply in_map_iff in H'. destruct H' as (n & <- & _). discriminate.
+    + apply repeat_spec in H'. subst. reflexivity.
+  - intros i p H Hk. pose proof (nth_error_In _ _ H) as H'. apply in_app_or in H'. destruct H' as [H'|H'].
+    + apply in_map_iff in H'. destruct H' as (n & <- & _). discriminate.
+    + apply repeat_spec in H'. subst. now left.
+  - intros [H|[[o H]|H]]; discriminate.
+  - intros _. right. left. now left.
+Qed.
+
+(* facts about all producers survive an update of producer i when the new value satisfies them *)
+Lemma all_set_prod (P : prod -> Prop) (l : list prod) i x i0 p0 :
+  nth_error (set_nth i x l) i0 = Some p0 ->
+  (forall i p, nth_error l i = Some p -> P p) -> P x -> P p0.
+Proof.
+  intros Hn H Hx. destruct (Nat.eq_dec i i0) as [<-|Hne].
+  - destruct (nth_error l i) eqn:E.
+    + rewrite (nth_set_nth_eq _ _ _ _ E) in Hn. now inversion Hn; subst.
+    + assert (nth_error (set_nth i x l) i = None).
+      { apply nth_error_None. rewrite set_nth_length. now apply nth_error_None. }
+      congruence.
+  - rewrite nth_set_nth_neq in Hn; eauto.
+Qed.
+
+Lemma owed_set_prod (l : list prod) i x y :
+  nth_error l i = Some y -> (stop_owed_by y -> stop_owed_by x) ->
+  (exists i p, nth_error l i = Some p /\ stop_owed_by p) ->
+  exists i0 p0, nth_error (set_nth i x l) i0 = Some p0 /\ stop_owed_by p0.
+Proof.
+  intros Hn Hxy (i0 & p0 & Hn0 & Ho). destruct (Nat.eq_dec i i0) as [<-|Hne].
+  - rewrite Hn in Hn0. inversion Hn0; subst p0. exists i, x. split; auto. eapply nth_set_nth_eq; eauto.
+  - exists i0, p0. split; auto. rewrite nth_set_nth_neq; auto.
+Qed.
+
+(* a step of producer i that moves its pc to c, leaves stopped/registered/loop alone and either
+   does not enqueue or enqueues item_of i p j *)
+Lemma prod_move_invS s i p c (en : list item) :
+  InvS s -> nth_error (prods s) i = Some p ->
+  (pk p = KStopper -> c = PSet \/ stopped s = true) ->
+  (en = enq s \/ en = enq s ++ [item_of i p (nidx (pp p))]) ->
+  (pk p = KStopper -> pp p = PSet -> en = enq s) ->
+  (stop_owed_by p -> stop_owed_by (with_pp p c) \/ In IStop en) ->
+  forall s', stopped s' = stopped s -> registered s' = registered s -> loop s' = loop s ->
+    prods s' = set_nth i (with_pp p c) (prods s) -> enq s' = en -> InvS s'.
+Proof.
+  intros [Hst Hrg Hsp Hk Hpre Hod] Hn Hc Hen Hset Hown s' E1 E2 E3 E4 E5.
+  constructor; rewrite ?E1, ?E2, ?E3, ?E4, ?E5; auto.
+  - intros Hin. destruct Hen as [->| ->]; auto. apply in_app_or in Hin. destruct Hin as [Hin|[Hin|[]]]; auto.
+    unfold item_of in Hin. destruct (pk p) eqn:Hkp; [discriminate|].
+    destruct (Hk _ _ Hn Hkp) as [X|X]; auto.
+    specialize (Hset eq_refl X). exfalso.
+    assert (length (enq s ++ [item_of i p (nidx (pp p))]) = length (enq s)) by (f_equal; exact Hset).
+    rewrite app_length in H. simpl in H. lia.
+  - intros i0 p0 Hn0. apply (all_set_prod (fun p => pk p = KStopper -> pn p = 1) _ _ _ _ _ Hn0); eauto.
+    simpl. intros Hkk. eapply Hsp; eauto.
+  - intros i0 p0 Hn0.
+    apply (all_set_prod (fun p => pk p = KStopper -> pp p = PSet \/ stopped s = true) _ _ _ _ _ Hn0); eauto.
+  - intros Hs. destruct (Hod Hs) as [X|[X|(i0 & p0 & Hn0 & Ho)]].
+    + left. destruct Hen as [->| ->]; auto. apply in_or_app. now left.
+    + right. now left.
+    + destruct (Nat.eq_dec i i0) as [<-|Hne].
+      * rewrite Hn in Hn0. inversion Hn0; subst p0. destruct (Hown Ho) as [Y|Y]; auto.
+        right. right. exists i, (with_pp p c). split; auto. eapply nth_set_nth_eq; eauto.
+      * right. right. exists i0, p0. split; auto. rewrite nth_set_nth_neq; auto.
+Qed.
+
+Lemma step_prod_invS i s s' evs : InvS s -> step_prod i s = Some (s', evs) -> InvS s'.
+Proof.
+  intros HI H. pose proof HI as [Hst Hrg Hsp Hk Hpre Hod]. unfold step_prod in H.
+  destruct (nth_error (prods s) i) as [p|] eqn:Hn; [|discriminate].
+  destruct (pp p) eqn:Hpp.
+  - (* PSet *)
+    destruct (pk p) eqn:Hkp; [discriminate|].
+    destruct (stopped s) eqn:Hstp; inversion H; subst; clear H.
+    + eapply (prod_move_invS s i p (PLoad 1) (enq s)); eauto.
+      intros [_ [X|[o X]]]; rewrite Hpp in X; discriminate.
+    + constructor; simpl; auto.
+      * intros A B; discriminate.
+      * intros i0 p0 Hn0. apply (all_set_prod (fun p => pk p = KStopper -> pn p = 1) _ _ _ _ _ Hn0); eauto.
+        simpl. intros Hkk. eapply Hsp; eauto.
+      * intros i0 p0 Hn0 _. now right.
+      * intros _. destruct (registered s) eqn:Hr.
+        -- right. right. exists i, (with_pp p (PLoad 0)). split.
+           ++ eapply nth_set_nth_eq; eauto.
+           ++ split; simpl; auto.
+        -- right. left. left. auto.
+  - (* PLoad *)
+    destruct (Nat.ltb j (pn p)); inversion H; subst; clear H.
+    eapply (prod_move_invS s i p (PCas j (head_ptr s)) (enq s)); eauto.
+    + intros Hkp. destruct (Hk _ _ Hn Hkp) as [X|X]; [congruence|auto].
+    + intros [Hkp [X|[o X]]]; rewrite Hpp in X; inversion X; subst. left. split; simpl; eauto.
+  - (* PCas *)
+    destruct (ptr_eqb (head_ptr s) old).
+    + unfold do_enqueue in H. inversion H; subst; clear H.
+      eapply (prod_move_invS s i p (if inactive s then PWrite j else PLoad (S j)) (enq s ++ [item_of i p j])); eauto.
+      * intros Hkp. destruct (Hk _ _ Hn Hkp) as [X|X]; [congruence|auto].
+      * right. rewrite Hpp. reflexivity.
+      * intros _ X. congruence.
+      * intros [Hkp _]. right. apply in_or_app. right. unfold item_of. rewrite Hkp. now left.
+      * destruct (inactive s); reflexivity.
+    + inversion H; subst; clear H.
+      eapply (prod_move_invS s i p (PCas j (head_ptr s)) (enq s)); eauto.
+      * intros Hkp. destruct (Hk _ _ Hn Hkp) as [X|X]; [congruence|auto].
+      * intros [Hkp [X|[o X]]]; rewrite Hpp in X; inversion X; subst. left. split; simpl; eauto.
+  - (* PWrite *)
+    inversion H; subst; clear H.
+    eapply (prod_move_invS s i p (PLoad (S j)) (enq s)); eauto.
+    + intros Hkp. destruct (Hk _ _ Hn Hkp) as [X|X]; [congruence|auto].
+    + intros [Hkp [X|[o X]]]; rewrite Hpp in X; discriminate.
+Qed.
+
+Lemma continue_batch_S s b :
+  enq (continue_batch s b) = enq s /\ prods (continue_batch s b) = prods s /\
+  stopped (continue_batch s b) = stopped s /\ registered (continue_batch s b) = registered s /\
+  (loop (continue_batch s b) = LExec \/ loop (continue_batch s b) = LRet \/ loop (continue_batch s b) = LMarkLoad).
+Proof.
+  unfold continue_batch. destruct (strip_stops b) as [a r]. destruct r; simpl.
+  - destruct (should_stop s || _); simpl; auto 10.
+  - auto 10.
+Qed.
+
+(* a step of the loop that leaves the stop bits, the producers and the queue ghost alone and is
+   neither at nor going to the registration / inline-callback phase *)
+Lemma loop_move_invS s s' :
+  InvS s -> stopped s' = stopped s -> registered s' = registered s -> prods s' = prods s -> enq s' = enq s ->
+  loop s <> LReg -> ~ in_pre (loop s) -> loop s' <> LReg -> ~ in_pre (loop s') -> InvS s'.
+Proof.
+  intros [Hst Hrg Hsp Hk Hpre Hod] E1 E2 E3 E4 N1 N2 N3 N4.
+  constructor; rewrite ?E1, ?E2, ?E3, ?E4; auto.
+  - intros A B. elim N1. auto.
+  - intros A. elim N4. exact A.
+  - intros A. destruct (Hod A) as [X|[X|X]]; auto.
+    exfalso. destruct X as [X|[X|[o X]]]; [now elim N1| |]; elim N2; unfold in_pre; eauto.
+Qed.
+
+Ltac not_pre := let X := fresh in let o := fresh in
+  intros [X|[[o X]|X]]; try discriminate; try (rewrite X in *; discriminate).
+
+Lemma step_loop_invS s s' evs : InvS s -> step_loop s = Some (s', evs) -> InvS s'.
+Proof.
+  intros HI H. pose proof HI as [Hst Hrg Hsp Hk Hpre Hod]. unfold step_loop in H.
+  destruct (loop s) eqn:Hl.
+  - (* LReg *)
+    destruct (stopped s) eqn:Hs; inversion H; subst; clear H.
+    + constructor; simpl; auto.
+      * intros A B. congruence.
+      * intros _. destruct (Hod eq_refl) as [X|[X|X]]; auto. right. left. right. now left.
+    + constructor; simpl; auto.
+      * discriminate.
+      * not_pre.
+      * discriminate.
+  - (* LPreLoad *)
+    inversion H; subst; clear H. constructor; simpl; auto.
+    + intros A B. rewrite Hpre in B; [discriminate|]. left; auto.
+    + intros _. apply Hpre. left; auto.
+    + intros A. destruct (Hod A) as [X|[X|X]]; auto. right. left. right. right. eauto.
+  - (* LPreCas *)
+    assert (Hs : stopped s = true) by (apply Hpre; right; left; eauto).
+    destruct (ptr_eqb (head_ptr s) old).
+    + unfold do_enqueue in H. inversion H; subst; clear H. constructor; simpl; auto.
+      * intros A B. congruence.
+      * intros _. left. apply in_or_app. right. now left.
+    + inversion H; subst; clear H. constructor; simpl; auto.
+      * intros A B. congruence.
+      * intros A. destruct (Hod A) as [X|[X|X]]; auto. right. left. right. right. eauto.
+  - (* LPreWrite *)
+    assert (Hs : stopped s = true) by (apply Hpre; right; right; auto).
+    inversion H; subst; clear H. constructor; simpl; auto.
+    + intros A B. congruence.
+    + intros A. destruct (Hod A) as [X|[X|X]]; auto.
+      destruct X as [X|[X|[o X]]]; discriminate.
+  - (* LExec *)
+    destruct (pending s) as [|it rest]; [discriminate|]. inversion H; subst; clear H.
+    match goal with |- InvS (continue_batch ?x ?y) => destruct (continue_batch_S x y) as (E1 & E2 & E3 & E4 & E5) end.
+    eapply loop_move_invS; eauto; rewrite ?Hl; try discriminate; try not_pre.
+    + destruct E5 as [E|[E|E]]; rewrite E; discriminate.
+    + destruct E5 as [E|[E|E]]; rewrite E; not_pre.
+  - inversion H; subst; clear H.
+    eapply loop_move_invS; eauto; simpl; rewrite ?Hl; try discriminate; try not_pre;
+      destruct (stack s); try discriminate; not_pre.
+  - destruct (stack s); inversion H; subst; clear H;
+      eapply loop_move_invS; eauto; simpl; rewrite ?Hl; try discriminate; not_pre.
+  - inversion H; subst; clear H.
+    match goal with |- InvS (continue_batch ?x ?y) => destruct (continue_batch_S x y) as (E1 & E2 & E3 & E4 & E5) end.
+    eapply loop_move_invS; eauto; rewrite ?Hl; try discriminate; try not_pre.
+    + destruct E5 as [E|[E|E]]; rewrite E; discriminate.
+    + destruct E5 as [E|[E|E]]; rewrite E; not_pre.
+  - destruct (Nat.ltb 0 (efd s)); [|discriminate]. inversion H; subst; clear H.
+    eapply loop_move_invS; eauto; simpl; rewrite ?Hl; try discriminate; not_pre.
+  - inversion H; subst; clear H.
+    eapply loop_move_invS; eauto; simpl; rewrite ?Hl; try discriminate; not_pre.
+  - inversion H; subst; clear H.
+    eapply loop_move_invS; eauto; simpl; rewrite ?Hl; try discriminate; not_pre.
+  - discriminate.
+Qed.
+
+Lemma step_invS t s s' evs : InvS s -> step t s = Some (s', evs) -> InvS s'.
+Proof. destruct t; simpl; [apply step_loop_invS | apply step_prod_invS]. Qed.
+
+Theorem invS_reachable counts nstop pre (sched : list nat) :
+  InvS (fst (run step sched (init counts nstop pre, []))).
+Proof.
+  apply (run_invariant_state _ _ _ step InvS); [|apply invS_init].
+  intros; eapply step_invS; eauto.
 Qed.
